@@ -21,3 +21,5 @@ def rules(ctx):
     S.c06_r6_restore(ctx)
     S.walker_rules(ctx)
     S.refcount_rules(ctx)
+    S.c07_rules(ctx)
+    S.c11_rules(ctx)
